@@ -17,13 +17,16 @@ SIZES = list(range(-2, 257))
 # selections in which the generator code itself is compiled differently
 CONFIGS = [("bigcrypt-no-descrypt", ["bigcrypt", "sha512crypt"]), ("descrypt-only", ["descrypt"]),
            ("gost-only", ["gost_yescrypt"]), ("scrypt-only", ["scrypt"]),
-           ("no-default", ["sha256crypt", "md5crypt", "descrypt"])]
+           ("no-default", ["sha256crypt", "md5crypt", "descrypt"]),
+           # the method a NULL prefix selects is the strongest ENABLED one
+           ("only-bcrypt", ["bcrypt", "md5crypt"]), ("glibc", ["descrypt", "md5crypt", "sha256crypt", "sha512crypt"])]
+DEFAULT_FM = ["yescrypt"]
 
 
 def columns(seed, tier, methods=None):
     cols = []
     for m in (methods if methods is not None else gen.METHODS + [None]):
-        fm = m or "yescrypt"
+        fm = m or DEFAULT_FM[0]
         prefix = gen.TAG[m] if m else None
         mn = facts.MIN_NRBYTES[fm]
         nrs = sorted(set([-2147483648, -1, 0, max(mn - 1, 0), mn, 16, 17, 64, 65, 100, 124, 200, 256]))
@@ -47,7 +50,7 @@ def cfgless_des(s):
 
 def judge_column(acc, col, rows, lines):
     m, prefix, count, nr, pat = col
-    fm = m or "yescrypt"
+    fm = m or DEFAULT_FM[0]
     name = m or "NULL"
     ref = rows[0]          # size 192 (4096 when nrbytes > 64)
     refsz = 192 if nr <= 64 else 4096
@@ -168,7 +171,12 @@ def do_config(args):
         acc.inconc("configuration %s does not build: %s" % (name, err[-300:]))
         return acc
     try:
-        acc = do_chunk(columns(seed, tier, en), exe, name)
+        dflt = next((m for m in ("yescrypt", "bcrypt", "sha512crypt") if m in en), None)
+        DEFAULT_FM[0] = dflt or "yescrypt"
+        try:
+            acc = do_chunk(columns(seed, tier, list(en) + ([None] if dflt else [])), exe, name)
+        finally:
+            DEFAULT_FM[0] = "yescrypt"
         if not any(m in en for m in ("yescrypt", "bcrypt", "sha512crypt")):
             # no default method in this build: a NULL prefix must fail with EINVAL and, like every failure, leave
             # the token in the buffer
